@@ -6,6 +6,10 @@ from harness import common, framegen, tlsgen, gen_tables
 LEVEL = 'proof'
 
 
+# AlertDescription of RFC 5246 7.2 (TLS 1.2) in full, whatever the library declares
+RFC5246_ALERTS = [0, 10, 20, 21, 22, 30, 40, 41, 42, 43, 44, 45, 46, 47, 48, 49, 50, 51, 60, 70, 71, 80, 90, 100, 110]
+
+
 def gen_lines(rng, impl, tier):
     n = 150 if tier == 'quick' else 4000
     lines = []
@@ -32,10 +36,10 @@ def gen_lines(rng, impl, tier):
         # the library's hello retry request (ServerHello layout, handshake type 6), every compression method code of the table
         hrr_random = 'cf21ad74e59a6111be1d8c021e65b891c2a211167abb8c5e079e09e2c8a8339c' if rng.random() < 0.5 else ws[2]
         lines.append('hrrenc %s %s %s %d %d %s' % (ws[1], hrr_random, ws[3], suite, rng.choice(tlsgen.codes_of('TlsCompressionMethodFactory')), exts))
-        lines.append('certenc %s' % (','.join(framegen.rnd_bytes(rng, rng.choice([1, 5, 300])).hex() for _ in range(rng.choice([1, 2, 3]))) or '-'))
+        lines.append('certenc %s' % (','.join(framegen.rnd_bytes(rng, rng.choice([1, 5, 300])).hex() for _ in range(rng.choice([0, 1, 2, 3]))) or '-'))    # RFC 5246 7.4.2: certificate_list<0..2^24-1>, a client without a certificate sends an empty list
         cts = [v for _, v in dict(gen_tables.local_int_enums())['TlsContentType']]
         lines.append('recenc %d %d %s' % (rng.choice(cts), rng.choice(tlsgen.codes_of('TlsVersionFactory')), framegen.rnd_payload(rng).hex() or '-'))
-        lines.append('alertenc %d %d' % (rng.choice([1, 2]), rng.choice([v for _, v in dict(gen_tables.local_int_enums())['TlsAlertDescription']])))
+        lines.append('alertenc %d %d' % (rng.choice([1, 2]), rng.choice(sorted(set([v for _, v in dict(gen_tables.local_int_enums())['TlsAlertDescription']] + RFC5246_ALERTS)))))
     # SSL 2.0 hello messages: cipher kinds of the library's table, session / connection ids and challenges of 0..32 bytes
     kinds = tlsgen.codes_of('SslCipherKindFactory')
     for _ in range(max(20, n // 3)):
